@@ -1,6 +1,6 @@
 /-
   Locality for every call (C12), part 3: every constructor of `Forest.Call`, the steps of
-  `Forest.Step`, histories, and the two sides of a clone.
+  `Forest.HStep`, histories, and the two sides of a clone.
 -/
 import XotModel.Lemmas.FlocalAll2
 import XotModel.Model.FlocalSpec
@@ -34,7 +34,7 @@ theorem nle_call (f : Forest) (c : Call) : NLe f (c.run f).1 := by
   | setPiData n d => exact nle_setPiData f n d
   | textContentSet n s => exact nle_textContentSet f n s
 
-theorem nle_stepAll (f : Forest) (s : Step) : NLe f (f.stepAll s) := by
+theorem nle_stepAll (f : Forest) (s : HStep) : NLe f (f.stepAll s) := by
   cases s with
   | call c => exact nle_call f c
   | newNode v => exact nle_newNode f v
@@ -77,18 +77,18 @@ theorem call (s : SepB r f) (c : Forest.Call)
   | textContentSet n x => exact s0.textContentSet b0 (h n (by simp [Forest.Call.args])) x
 
 /-- One step of a history. -/
-theorem stepAll (s : SepB r f) (st : Forest.Step)
+theorem stepAll (s : SepB r f) (st : Forest.HStep)
     (h : ∀ a ∈ st.args, a ∉ handles r) : SepB r (f.stepAll st) := by
   cases st with
   | call c => exact s.call c h
   | newNode v => exact (s.newNode v).1
   | setConsolidation b => exact ⟨s.sep.setConsolidation b, s.below⟩
   | removeInsignificantWhitespace n =>
-    exact ⟨s.sep.removeInsignificantWhitespace (h n (by simp [Forest.Step.args])),
+    exact ⟨s.sep.removeInsignificantWhitespace (h n (by simp [Forest.HStep.args])),
       s.below.le (Forest.nle_removeInsignificantWhitespace f n)⟩
 
 /-- Any history. -/
-theorem runAll : ∀ (ss : List Forest.Step) {f : Forest}, SepB r f →
+theorem runAll : ∀ (ss : List Forest.HStep) {f : Forest}, SepB r f →
     (∀ st ∈ ss, ∀ a ∈ st.args, a ∉ handles r) → SepB r (f.runAll ss)
   | [], _, s, _ => s
   | st :: ss, f, s, h => by
@@ -116,7 +116,7 @@ end XotModel
 
 namespace XotModel
 
-/-- The C04 history type `Op` is the sub-language of `Step` histories the public API can issue. -/
+/-- The C04 history type `Op` is the sub-language of `HStep` histories the public API can issue. -/
 theorem Forest.step_eq_stepAll (f : Forest) (o : Op) : f.step o = f.stepAll o.toStep := by
   cases o <;> rfl
 
